@@ -62,6 +62,19 @@ func (w *World) dispatchTable() []dispatchEntry {
 				}
 			}
 		}
+		// a class/method pinned by a chain of exclusions rather than one equality (class is an
+		// indication or a request, and not an indication)
+		ai := w.absint()
+		if cls < 0 {
+			if r := ai.rangeOfTerm(termOf(fn.Params[0]), ret, 3); !r.empty() && r.lo == r.hi {
+				cls = r.lo
+			}
+		}
+		if mth < 0 {
+			if r := ai.rangeOfTerm(termOf(fn.Params[1]), ret, 3); !r.empty() && r.lo == r.hi {
+				mth = r.lo
+			}
+		}
 		out = append(out, dispatchEntry{cls, mth, h})
 	}
 	sort.Slice(out, func(i, j int) bool {
@@ -906,18 +919,37 @@ func (w *World) depWalk(v ssa.Value, stack0 []*ssa.Call, pred func(ssa.Value, []
 			fn = in.Parent()
 		}
 		// the pointee of a pointer handed to library calls is whatever those calls were given
-		if _, isPtr := v.Type().Underlying().(*types.Pointer); isPtr && fn != nil {
+		_, isPtr := v.Type().Underlying().(*types.Pointer)
+		_, isIface := v.Type().Underlying().(*types.Interface)
+		if (isPtr || isIface) && fn != nil && v.Referrers() != nil {
 			if _, isAlloc := v.(*ssa.Alloc); !isAlloc {
-				for _, r := range *v.Referrers() {
-					if c2, ok := r.(*ssa.Call); ok {
-						if cal := c2.Call.StaticCallee(); cal != nil && !w.IsMod[cal] {
-							for _, b := range c2.Call.Args {
-								if b != v && walk(b, stack) {
-									return true
+				// (an interface value — a hash.Hash handed to io.WriteString — likewise, also
+				// through its conversions to other interfaces)
+				var handed func(x ssa.Value, d int) bool
+				handed = func(x ssa.Value, d int) bool {
+					if x.Referrers() == nil || d > 2 {
+						return false
+					}
+					for _, r := range *x.Referrers() {
+						switch c2 := r.(type) {
+						case *ssa.Call:
+							if cal := c2.Call.StaticCallee(); cal != nil && !w.IsMod[cal] {
+								for _, b := range c2.Call.Args {
+									if b != x && walk(b, stack) {
+										return true
+									}
 								}
+							}
+						case *ssa.ChangeInterface:
+							if isIface && handed(c2, d+1) {
+								return true
 							}
 						}
 					}
+					return false
+				}
+				if handed(v, 0) {
+					return true
 				}
 			}
 		}
